@@ -68,9 +68,9 @@ def run(ctx):
         if f is None:
             raise AnalysisError(f'FindReads has no handler for {name}')
         src = ast.unparse(f.node)
-        clears = '_register_writes(o.defines_symbols)' in src
-        saves = 'candidate_set.copy()' in src and ('candidate_set |=' in src or '|= candidate_set' in src)
-        visits = 'self.visit(' in src
+        clears = X.has(src, '_register_writes(o.defines_symbols)')
+        saves = X.has(src, 'candidate_set.copy()') and (X.has(src, 'candidate_set |=') or X.has(src, '|= candidate_set'))
+        visits = X.has(src, 'self.visit(')
         alts = [c for c in ast.walk(f.node) if isinstance(c, ast.Call) and X.dotted_attr(c.func) == 'self._visit_alternatives']
         facts = {'handler': f.qualname, 'key': key, 'clears_candidates_with_node_summary': clears, 'saves_and_unions_candidates': saves,
                  'descends': visits, 'alternatives': [ast.unparse(c.args[0]) for c in alts if c.args]}
@@ -111,9 +111,9 @@ def run(ctx):
      ctx.violation('R2', 'loop_carried_dependencies', lcd.where, f'returns {rets}, expected loop.uses_symbols & loop.defines_symbols'))
     raw = m.get_function(FILE, 'read_after_write_vars')
     src = ast.unparse(raw.node)
-    checks = {'writes before the inspection node': 'FindWrites(stop=inspection_node, active=True)' in src,
-              'reads from the inspection node on': 'FindReads(start=inspection_node, candidate_set=write_visitor.writes' in src,
-              'returns the reads': 'return read_visitor.reads' in src,
+    checks = {'writes before the inspection node': X.has(src, 'FindWrites(stop=inspection_node, active=True)'),
+              'reads from the inspection node on': X.has(src, 'FindReads(start=inspection_node, candidate_set=write_visitor.writes'),
+              'returns the reads': X.has(src, 'return read_visitor.reads'),
               'both visitors traverse the same IR': src.count('.visit(ir)') == 2}
     for k, v in checks.items():
         (ctx.judge('R2', f'read_after_write_vars:{k}') if v else
